@@ -229,10 +229,20 @@ func VerifH_serveHTTP_path() {
 func VerifH_serveHTTP_typed() {
 	in := schemaTyped()
 	out := newFakeMD("vf.Resp", strField("r"))
-	shape := vfChoice(4)
+	shape := vfChoice(6)
 	var rule *annotations.HttpRule
 	var prefix, capture, rivalKey, rivalVal string
 	switch shape {
+	case 4:
+		// a path variable bound to a well-known wrapper message (zero and non-zero captures)
+		rule, prefix = vfHTTPRule("GET", "/w/{wi}"), "/w/"
+		capture = []string{"0", "5"}[vfChoice(2)]
+		rivalKey, rivalVal = "wi", "7"
+	case 5:
+		// ... and to a FieldMask: the path text replaces, it is not merged with the query's
+		rule, prefix = vfHTTPRule("GET", "/m/{wm}"), "/m/"
+		capture = "a"
+		rivalKey, rivalVal = "wm", "b"
 	case 3:
 		// the path variable is a member of a oneof; the rival query parameter sets the same member or
 		// its sibling (a oneof holds one member: the path-bound one must be it)
@@ -305,6 +315,20 @@ func VerifH_serveHTTP_typed() {
 			vfCover("zero-capture-with-rival")
 		}
 		vfCover("bool")
+	case 4:
+		vfCheck(srv.calls == 1 && w.status == 200, "a well-formed request matching the rule was not delivered")
+		got, _, ok := vfWKTGet(srv.got[0], "wi", "value")
+		want, _ := refJSONInt(capture)
+		vfCheck(ok && int(got.Int()) == want, "a path-bound wrapper field does not carry the value captured from the URL path")
+		vfCover("wkt-wrapper")
+	case 5:
+		vfCheck(srv.calls == 1 && w.status == 200, "a well-formed request matching the rule was not delivered")
+		fd := in.fields.ByName("wm")
+		vfCheck(srv.got[0].Has(fd), "a path-bound FieldMask field is not set")
+		wm := srv.got[0].Get(fd).Message()
+		l := wm.Get(wm.Descriptor().Fields().ByName("paths")).List()
+		vfCheck(l.Len() == 1 && l.Get(0).String() == capture, "a path-bound FieldMask does not hold exactly the path text captured from the URL")
+		vfCover("wkt-fieldmask")
 	case 3:
 		vfCheck(srv.calls == 1 && w.status == 200, "a well-formed request matching the rule was not delivered")
 		vfCheck(srv.got[0].str("o1") == capture, "a path-bound oneof member does not carry the value captured from the URL path")
